@@ -1057,3 +1057,54 @@ def run_pdcd(ctx, rep, n_cases=None):
         if not np.all(np.isfinite(i)):
             rep.violate("PDCD_WS: non-finite state after the epochs", dict(site="PDCD_WS._solve_subproblem", kind="nonfinite"),
                         input=inp, impl_output=dict(w=w1.tolist()))
+
+
+def run_pdcd_solve(ctx, rep, n_cases=None):
+    """whole `PDCD_WS.solve` runs, cold and from user-supplied starts (also non-zero on all-zero columns), on designs with
+    and without null columns: a reported convergence from a warm start must reach the objective of the converged cold
+    start (convex problems), and the returned numbers are finite"""
+    from skglm.experimental.pdcd_ws import PDCD_WS
+    from skglm.experimental.sqrt_lasso import SqrtQuadratic
+    from skglm.experimental.quantile_regression import Pinball
+    rng = ctx.rng
+    n_cases = n_cases or ctx.n(16, 160)
+    for _ in range(n_cases):
+        n, p = rng.randrange(6, 14), rng.randrange(2, 7)
+        X = np.asfortranarray(gen_matrix(rng, n, p, gen.pick(rng, ["gauss", "degenerate", "degenerate"])))
+        y = X @ np.array([rng.choice([0.0, 1.0, -2.0]) for _ in range(p)]) + np.array([rng.gauss(0, 1) for _ in range(n)])
+        if rng.random() < 0.5:
+            dname, mk = "SqrtQuadratic", (lambda: compiled(SqrtQuadratic()))
+            loss = lambda w: float(np.linalg.norm(y - X @ w))                      # noqa: E731
+        else:
+            q = gen.pick(rng, [0.3, 0.5, 0.7])
+            dname, mk = "Pinball", (lambda q=q: compiled(Pinball(q)))
+            loss = lambda w, q=q: float(np.sum(np.where(y - X @ w >= 0, q, q - 1) * (y - X @ w)))   # noqa: E731
+        alpha = gen.pick(rng, [0.1, 0.5, 1.0])
+        pobj = compiled_pen(Pen("l1", alpha))
+
+        def F(w):
+            return loss(w) + alpha * float(np.sum(np.abs(w)))
+        w0 = np.array([rng.choice([0.0, 0.0, 1.0, -2.0, 3.0]) for _ in range(p)])
+        outs = {}
+        for start in ("cold", "warm"):
+            wi = None if start == "cold" else w0.copy()
+            Xwi = None if start == "cold" else X @ w0
+            r = call(lambda: PDCD_WS(tol=1e-7, max_iter=200, max_epochs=5000).solve(X, y, mk(), pobj, wi, Xwi))
+            outs[start] = r
+        inp = dict(datafit=dname, X=X.tolist(), y=y.tolist(), alpha=alpha, w_init=w0.tolist())
+        rep.count(f"pdcd-solve:{dname}:p={p}", False, ("pdcdsolve", hash(X.tobytes()), dname))
+        bad = [k for k, r in outs.items() if isinstance(r, str)]
+        if bad:
+            rep.violate(f"PDCD_WS.solve raises from a {bad[0]} start: {outs[bad[0]]}", dict(site="PDCD_WS.solve", kind="raises"),
+                        input=inp, impl_output=outs[bad[0]])
+            continue
+        (wc, _, sc), (ww, _, sw_) = outs["cold"], outs["warm"]
+        if not (np.all(np.isfinite(wc)) and np.all(np.isfinite(ww))):
+            rep.violate("PDCD_WS.solve returns non-finite coefficients", dict(site="PDCD_WS.solve", kind="nonfinite"), input=inp,
+                        impl_output=dict(cold=np.asarray(wc).tolist(), warm=np.asarray(ww).tolist()))
+            continue
+        if sc <= 1e-7 and sw_ <= 1e-7 and F(ww) > F(wc) + 1e-5 * (1 + abs(F(wc))):
+            rep.violate("PDCD_WS started from user-supplied coefficients reports convergence at a point whose objective is "
+                        "above the converged cold start's", dict(site="PDCD_WS.solve", solver="PDCD_WS", kind="warm-start-not-optimal"),
+                        input=inp, impl_output=dict(warm=np.asarray(ww).tolist(), stop_crit=float(sw_)),
+                        oracle=dict(objective_warm=F(ww), objective_cold=F(wc)))
